@@ -7,7 +7,10 @@
 //   -DLIBCUCKOO_VERIF_MAX_NUM_LOCKS=<n> stripe count (guarded hook in cuckoohash_map.hh)
 //   -DH_KIND=0|1                        0: trivial key/value (is_simple), 1: instrumented types
 //   -DH_NOTHROW=0|1                     (kind 1) move constructors noexcept or not
+#include <algorithm>
 #include <cerrno>
+#include <sys/wait.h>
+#include <unistd.h>
 #include <cinttypes>
 #include <cmath>
 #include <cstdint>
@@ -24,6 +27,9 @@
 #include <vector>
 
 #include <libcuckoo/cuckoohash_map.hh>
+
+// the guarded synchronisation hooks are compiled in (LIBCUCKOO_VERIF) but not used by this harness
+extern "C" void libcuckoo_verif_hook(int, const void *, unsigned long, unsigned long) {}
 
 #ifndef H_SPB
 #define H_SPB 4
@@ -43,6 +49,13 @@ static const uint64_t kHarnessMaxLocks = 1UL << 16;
 // ---------------------------------------------------------------- chosen hashes
 static std::unordered_map<uint64_t, uint64_t> g_hash;
 static std::vector<std::string> g_errors; // harness-detected misuse (read of moved-from object, ...)
+// ---------------------------------------------------------------- fault injection (T3, C07)
+struct UserFault {};   // what a user's hash / equality / constructor / functor throws
+static int g_fault_kind = 0;      // 0 none, 1 k-th allocation, 2 hash of poison key, 3 equality with poison key,
+                                  // 4 k-th copy construction of an element from user arguments, 5 functor
+static long g_fault_at = 0, g_fault_count = 0;
+static bool g_fault_fired = false;
+static const uint64_t kPoison = 999;
 static uint64_t hash_of(uint64_t id) {
   auto it = g_hash.find(id);
   return it == g_hash.end() ? id : it->second;
@@ -97,7 +110,10 @@ struct Key {
   uint64_t id;
   bool moved;
   explicit Key(uint64_t i) : id(i), moved(false) { g_reg.ctor(this, 1); }
-  Key(const Key &o) : id(o.id), moved(o.moved) { g_reg.ctor(this, o.moved ? 2 : 1); }
+  Key(const Key &o) : id(o.id), moved(o.moved) {
+    if (g_fault_kind == 4 && ++g_fault_count == g_fault_at) { g_fault_fired = true; throw UserFault(); }
+    g_reg.ctor(this, o.moved ? 2 : 1);
+  }
   Key(Key &&o) noexcept(H_NOTHROW) : id(o.id), moved(o.moved) {
     g_reg.ctor(this, o.moved ? 2 : 1);
     o.moved = true;
@@ -113,12 +129,17 @@ struct Key {
 };
 static inline Key mkkey(uint64_t id) { return Key(id); }
 static inline bool key_husk(const Key &k) { return k.moved; }
+struct HKey;
+
 struct Val {
   int64_t v;
   bool moved;
   Val() : v(0), moved(false) { g_reg.ctor(this, 1); }
   explicit Val(int64_t x) : v(x), moved(false) { g_reg.ctor(this, 1); }
-  Val(const Val &o) : v(o.v), moved(o.moved) { g_reg.ctor(this, o.moved ? 2 : 1); }
+  Val(const Val &o) : v(o.v), moved(o.moved) {
+    if (g_fault_kind == 4 && ++g_fault_count == g_fault_at) { g_fault_fired = true; throw UserFault(); }
+    g_reg.ctor(this, o.moved ? 2 : 1);
+  }
   Val(Val &&o) noexcept(H_NOTHROW) : v(o.v), moved(o.moved) {
     g_reg.ctor(this, o.moved ? 2 : 1);
     o.moved = true;
@@ -134,6 +155,8 @@ struct Val {
     v = o.v;
     moved = o.moved;
     g_reg.st[this] = moved ? 2 : 1;
+    o.moved = true;
+    g_reg.st[&o] = 2;
     return *this;
   }
   ~Val() { g_reg.dtor(this); }
@@ -150,23 +173,53 @@ static inline void val_set(Val &v, int64_t x) {
 static const bool kSimple = false, kNothrow = H_NOTHROW, kDestructive = true;
 #endif
 
+#if H_KIND == 1
+// a key-like type that hashes and compares consistently with Key but is not convertible to it
+struct HKey { uint64_t id; };
+#endif
 struct KeyHash {
+#if H_KIND == 1
+  size_t operator()(const HKey &k) const { return hash_of(k.id); }
+#endif
   size_t operator()(const Key &k) const {
 #if H_KIND == 1
     g_reg.use(&k, "hash");
 #endif
+    if (g_fault_kind == 2 && k.id == kPoison) { g_fault_fired = true; throw UserFault(); }
     return hash_of(k.id);
   }
 };
 struct KeyEq {
+#if H_KIND == 1
+  bool operator()(const Key &a, const HKey &b) const { g_reg.use(&a, "eq lhs"); return a.id == b.id; }
+  bool operator()(const HKey &a, const Key &b) const { g_reg.use(&b, "eq rhs"); return a.id == b.id; }
+#endif
   bool operator()(const Key &a, const Key &b) const {
 #if H_KIND == 1
     g_reg.use(&a, "eq lhs");
     g_reg.use(&b, "eq rhs");
 #endif
+    if (g_fault_kind == 3 && (a.id == kPoison || b.id == kPoison)) { g_fault_fired = true; throw UserFault(); }
     return a.id == b.id;
   }
 };
+
+// ---------------------------------------------------------------- argument instrumentation (C16)
+static std::string g_consumed;
+static bool g_copy_args = false;
+#if H_KIND == 1
+#define LK(id) (HKey{(uint64_t)(id)})
+// named key/value arguments handed to insertion-type calls as rvalues; afterwards (also when the
+// call throws) it is recorded whether the table moved from them
+struct Args {
+  Key k;
+  Val v;
+  Args(uint64_t id, int64_t x) : k(id), v(x) {}
+  ~Args() { g_consumed = std::string(" consumed=") + (k.moved ? "1" : "0") + (v.moved ? "1" : "0"); }
+};
+#else
+#define LK(id) mkkey(id)
+#endif
 
 // ---------------------------------------------------------------- allocator
 struct AllocStats {
@@ -185,6 +238,7 @@ template <class T> struct TrackAlloc {
   explicit TrackAlloc(int i) : id(i) {}
   template <class U> TrackAlloc(const TrackAlloc<U> &o) : id(o.id) {}
   T *allocate(size_t n) {
+    if (g_fault_kind == 1 && ++g_fault_count == g_fault_at) { g_fault_fired = true; throw std::bad_alloc(); }
     ++g_alloc.calls;
     ++g_alloc.live_blocks;
     g_alloc.live_bytes += (long)(n * sizeof(T));
@@ -246,6 +300,7 @@ static Fnk parse_fn(const std::string &s) {
   else if (parts[0] == "eraseifeq") { f.kind = 3; f.a = atoll(parts[1].c_str()); }
   else if (parts[0] == "adderaseeven") { f.kind = 4; f.a = atoll(parts[1].c_str()); }
   else if (parts[0] == "ctx") { f.kind = 5; f.a = atoll(parts[1].c_str()); f.b = atoll(parts[2].c_str()); }
+  else if (parts[0] == "throw") { f.kind = 6; f.a = atoll(parts[1].c_str()); }
   else { fprintf(stderr, "bad functor %s\n", s.c_str()); exit(2); }
   return f;
 }
@@ -264,6 +319,11 @@ static bool fn_apply(const Fnk &f, Val &v, bool newly) {
     val_set(v, y);
     return y == 0;
   }
+  case 6:
+    // partial effect, then the functor throws
+    val_set(v, x + f.a);
+    g_fault_fired = true;
+    throw UserFault();
   }
   return false;
 }
@@ -394,10 +454,13 @@ static std::string exec_op(int a, const std::vector<std::string> &tk) {
   const std::string &o = tk[1];
   std::string r;
   g_fnlog.clear();
+  g_consumed.clear();
   auto B = [](bool b) { return std::string(b ? " true" : " false"); };
   if (o == "new") {
     if (g_tab[a]) return UNM;
-    g_tab[a].reset(new Table(U(tk[2])));
+    try { g_tab[a].reset(new Table(U(tk[2]))); }
+    catch (std::bad_alloc &) { return " exc:bad_alloc"; }
+    catch (...) { return " exc:user"; }
     return " -";
   }
   if (!g_tab[a]) return UNM;
@@ -414,25 +477,50 @@ static std::string exec_op(int a, const std::vector<std::string> &tk) {
   try {
     if (o == "find") {
       Val v = mkval(0);
-      bool f = t.find(mkkey(U(tk[2])), v);
+      bool f = t.find(LK(U(tk[2])), v);
       r = B(f);
       if (f) r += " " + std::to_string(val_get(v));
     } else if (o == "findthrow") {
-      Val v = t.find(mkkey(U(tk[2])));
+      Val v = t.find(LK(U(tk[2])));
       r = " " + std::to_string(val_get(v));
     } else if (o == "contains") {
-      r = B(t.contains(mkkey(U(tk[2]))));
+      r = B(t.contains(LK(U(tk[2]))));
     } else if (o == "findfn") {
-      bool f = t.find_fn(mkkey(U(tk[2])), [](const Val &v) {
+      bool f = t.find_fn(LK(U(tk[2])), [](const Val &v) {
         g_fnlog += " fn(" + std::to_string(val_get(v)) + ",old)";
       });
       r = B(f) + g_fnlog;
     } else if (o == "update") {
-      r = B(t.update(mkkey(U(tk[2])), mkval(I(tk[3]))));
+      r = B(t.update(LK(U(tk[2])), mkval(I(tk[3]))));
     } else if (o == "updatefn") {
       Fnk f = parse_fn(tk[3]);
-      bool res = t.update_fn(mkkey(U(tk[2])), [&f](Val &v) { fn_apply(f, v, false); });
+      bool res = t.update_fn(LK(U(tk[2])), [&f](Val &v) { fn_apply(f, v, false); });
       r = B(res) + g_fnlog;
+#if H_KIND == 1
+    } else if (o == "insert") {
+      bool res;
+      { Args ar(U(tk[2]), I(tk[3]));
+        if (g_copy_args) res = t.insert(ar.k, ar.v);   // fault mode: elements copy-constructed from lvalue arguments
+        else res = t.insert(std::move(ar.k), std::move(ar.v)); }
+      r = B(res) + g_consumed;
+    } else if (o == "ioa") {
+      bool res; { Args ar(U(tk[2]), I(tk[3])); res = t.insert_or_assign(std::move(ar.k), std::move(ar.v)); }
+      r = B(res) + g_consumed;
+    } else if (o == "upsert") {
+      Fnk f = parse_fn(tk[3]);
+      bool res;
+      { Args ar(U(tk[2]), I(tk[5]));
+        res = (tk[4] == "1") ? t.upsert(std::move(ar.k), UpsertFn2{f}, std::move(ar.v))
+                             : t.upsert(std::move(ar.k), UpsertFn1{f}, std::move(ar.v)); }
+      r = B(res) + g_fnlog + g_consumed;
+    } else if (o == "uprase") {
+      Fnk f = parse_fn(tk[3]);
+      bool res;
+      { Args ar(U(tk[2]), I(tk[5]));
+        res = (tk[4] == "1") ? t.uprase_fn(std::move(ar.k), UpraseFn2{f}, std::move(ar.v))
+                             : t.uprase_fn(std::move(ar.k), UpraseFn1{f}, std::move(ar.v)); }
+      r = B(res) + g_fnlog + g_consumed;
+#else
     } else if (o == "insert") {
       r = B(t.insert(mkkey(U(tk[2])), mkval(I(tk[3]))));
     } else if (o == "ioa") {
@@ -447,11 +535,12 @@ static std::string exec_op(int a, const std::vector<std::string> &tk) {
       bool res = (tk[4] == "1") ? t.uprase_fn(mkkey(U(tk[2])), UpraseFn2{f}, mkval(I(tk[5])))
                                 : t.uprase_fn(mkkey(U(tk[2])), UpraseFn1{f}, mkval(I(tk[5])));
       r = B(res) + g_fnlog;
+#endif
     } else if (o == "erase") {
-      r = B(t.erase(mkkey(U(tk[2]))));
+      r = B(t.erase(LK(U(tk[2]))));
     } else if (o == "erasefn") {
       Fnk f = parse_fn(tk[3]);
-      bool res = t.erase_fn(mkkey(U(tk[2])), [&f](Val &v) { return fn_apply(f, v, false); });
+      bool res = t.erase_fn(LK(U(tk[2])), [&f](Val &v) { return fn_apply(f, v, false); });
       r = B(res) + g_fnlog;
     } else if (o == "rehash") {
       r = B(t.rehash(U(tk[2])));
@@ -485,13 +574,19 @@ static std::string exec_op(int a, const std::vector<std::string> &tk) {
       g_lt[a]->unlock();
       r = " -";
     } else if (o == "l.insert") {
+#if H_KIND == 1
+      std::string pr; bool ins;
+      { Args ar(U(tk[2]), I(tk[3])); auto res = g_lt[a]->insert(std::move(ar.k), std::move(ar.v)); pr = pos_str(res.first); ins = res.second; }
+      r = " " + pr + B(ins) + g_consumed;
+#else
       auto res = g_lt[a]->insert(mkkey(U(tk[2])), mkval(I(tk[3])));
       r = " " + pos_str(res.first) + B(res.second);
+#endif
     } else if (o == "l.idx") {
       Val &v = (*g_lt[a])[mkkey(U(tk[2]))];
       r = " " + std::to_string(val_get(v));
     } else if (o == "l.erase") {
-      r = " " + std::to_string(g_lt[a]->erase(mkkey(U(tk[2]))));
+      r = " " + std::to_string(g_lt[a]->erase(LK(U(tk[2]))));
     } else if (o == "l.eraseit") {
       int ri = atoi(tk[2].c_str()), di = atoi(tk[3].c_str());
       if (!it_usable(t, ri) || !it_occupied(t, g_it[ri])) return UNM;
@@ -500,16 +595,16 @@ static std::string exec_op(int a, const std::vector<std::string> &tk) {
       r = " " + pos_str(g_it[di]);
     } else if (o == "l.find") {
       int ri = atoi(tk[3].c_str());
-      g_it[ri] = g_lt[a]->find(mkkey(U(tk[2])));
+      g_it[ri] = g_lt[a]->find(LK(U(tk[2])));
       g_it_valid[ri] = true;
       r = " " + pos_str(g_it[ri]);
     } else if (o == "l.at") {
-      r = " " + std::to_string(val_get(g_lt[a]->at(mkkey(U(tk[2])))));
+      r = " " + std::to_string(val_get(g_lt[a]->at(LK(U(tk[2])))));
     } else if (o == "l.count") {
       const LT &clt = *g_lt[a];
-      r = " " + std::to_string(clt.count(mkkey(U(tk[2]))));
+      r = " " + std::to_string(clt.count(LK(U(tk[2]))));
     } else if (o == "l.range") {
-      auto pr = g_lt[a]->equal_range(mkkey(U(tk[2])));
+      auto pr = g_lt[a]->equal_range(LK(U(tk[2])));
       r = " " + pos_str(pr.first) + " " + pos_str(pr.second);
     } else if (o == "l.rehash") {
       g_lt[a]->rehash(U(tk[2]));
@@ -635,17 +730,17 @@ static std::string exec_op(int a, const std::vector<std::string> &tk) {
       return UNM;
     }
   } catch (libcuckoo::load_factor_too_low &) {
-    r = " exc:load_factor_too_low";
+    r = " exc:load_factor_too_low" + g_consumed;
   } catch (libcuckoo::maximum_hashpower_exceeded &) {
-    r = " exc:maximum_hashpower_exceeded";
+    r = " exc:maximum_hashpower_exceeded" + g_consumed;
   } catch (std::invalid_argument &) {
-    r = " exc:invalid_argument";
+    r = " exc:invalid_argument" + g_consumed;
   } catch (std::out_of_range &) {
-    r = " exc:out_of_range";
+    r = " exc:out_of_range" + g_consumed;
   } catch (std::bad_alloc &) {
-    r = " exc:bad_alloc";
+    r = " exc:bad_alloc" + g_consumed;
   } catch (...) {
-    r = " exc:user";
+    r = " exc:user" + g_consumed;
   }
   return r;
 }
@@ -671,6 +766,194 @@ static int leaf_mode() {
   return 0;
 }
 
+
+// ---------------------------------------------------------------- fault enumeration (--faults)
+static std::string contents_string(int i) {
+  if (!g_tab[i]) return "absent";
+  Table &t = *g_tab[i];
+  std::vector<std::pair<uint64_t, int64_t>> v;
+  auto &cur = IA::buckets(t);
+  auto &old = IA::old_buckets(t);
+  if (IA::all_locks(t).empty()) return "moved-from";
+  auto &locks = IA::all_locks(t).back();
+  auto val_of = [](decltype(cur[0]) &b, size_t sl) -> int64_t {
+#if H_KIND == 0
+    return b.mapped(sl);
+#else
+    return b.mapped(sl).v;
+#endif
+  };
+  if (!cur.is_deallocated())
+    for (size_t b = 0; b < cur.size(); ++b)
+      for (size_t sl = 0; sl < H_SPB; ++sl)
+        if (cur[b].occupied(sl)) v.push_back({cur[b].key(sl).id, val_of(cur[b], sl)});
+  if (!old.is_deallocated())
+    for (size_t b = 0; b < old.size(); ++b)
+      if (!locks[b & (kHarnessMaxLocks - 1)].is_migrated())
+        for (size_t sl = 0; sl < H_SPB; ++sl)
+          if (old[b].occupied(sl)) v.push_back({old[b].key(sl).id, val_of(old[b], sl)});
+  std::sort(v.begin(), v.end());
+  std::string s;
+  for (auto &p : v) s += std::to_string(p.first) + "=" + std::to_string(p.second) + " ";
+  s += "| size=" + std::to_string(t.size());
+  return s;
+}
+
+static bool all_locks_free(int i) {
+  Table &t = *g_tab[i];
+  bool ok = true;
+  for (auto &la : IA::all_locks(t))
+    for (auto &lk : la) { if (!lk.try_lock()) ok = false; else lk.unlock(); }
+  return ok;
+}
+
+static void fault_child(int a, const std::vector<std::string> &tk, int kind, long k, int wfd) {
+  std::string before[NT];
+  for (int i = 0; i < NT; ++i) before[i] = contents_string(i);
+  bool was_active[NT];
+  for (int i = 0; i < NT; ++i) was_active[i] = g_tab[i] && g_lt[i] && g_lt[i]->is_active();
+  size_t hp_before = g_tab[a] ? g_tab[a]->hashpower() : 0;
+  std::vector<std::string> tk2 = tk;
+  std::string expect_after; // for functor faults: the expected contents of table a
+  if (kind == 5) {
+    // replace the functor by one that adds 1 and throws
+    size_t fpos = (tk[1] == "updatefn" || tk[1] == "erasefn") ? 3 : 3;
+    tk2[fpos] = "throw:1";
+  }
+  g_fault_kind = kind; g_fault_at = k; g_fault_count = 0; g_fault_fired = false;
+  g_copy_args = (kind == 4);
+  std::string res = exec_op(a, tk2);
+  g_fault_kind = 0; g_copy_args = false;
+  bool fired = g_fault_fired;
+  std::string verdict = "ok", detail;
+  if (!g_errors.empty()) { verdict = "harness-error"; detail = g_errors[0]; }
+  if (fired && verdict == "ok") {
+    const char *want = (kind == 1) ? "exc:bad_alloc" : "exc:user";
+    if (res.find(want) == std::string::npos) { verdict = "exception-did-not-reach-caller"; detail = res; }
+    for (int i = 0; i < NT && verdict == "ok"; ++i) {
+      std::string after = contents_string(i);
+      if (kind != 5) {
+        if (tk[1] == "new" || tk[1] == "copyto" || tk[1] == "copyallocto") { if (i != a && before[i] == "absent") continue; }
+        if (after != before[i]) { verdict = "contents-changed"; detail = "T" + std::to_string(i) + ": " + before[i] + " -> " + after; }
+      } else if (i != a && after != before[i]) { verdict = "contents-changed"; detail = "other table changed"; }
+    }
+    if (verdict == "ok" && g_tab[a] && (tk[1] == "rehash" || tk[1] == "reserve" || tk[1] == "l.rehash" || tk[1] == "l.reserve") &&
+        g_tab[a]->hashpower() != hp_before) {
+      verdict = "failed-resize-changed-hashpower"; detail = std::to_string(hp_before) + " -> " + std::to_string(g_tab[a]->hashpower());
+    }
+    if (kind == 5 && verdict == "ok") {
+      // everything done before the functor was invoked and the functor's own partial effect (+1) remain
+      std::string after = contents_string(a);
+      uint64_t key = U(tk[2]);
+      // parse before-contents of table a
+      std::vector<std::pair<uint64_t, int64_t>> m;
+      { std::stringstream ss(before[a]); std::string tok;
+        while (ss >> tok && tok != "|") { auto p = tok.find('='); m.push_back({U(tok.substr(0, p)), I(tok.substr(p + 1))}); } }
+      bool present = false;
+      for (auto &kv : m) if (kv.first == key) { kv.second += 1; present = true; }
+      if (!present) m.push_back({key, I(tk[5]) + 1});
+      std::sort(m.begin(), m.end());
+      std::string exp;
+      for (auto &kv : m) exp += std::to_string(kv.first) + "=" + std::to_string(kv.second) + " ";
+      if (after.substr(0, after.find('|')) != exp) { verdict = "functor-fault-wrong-state"; detail = "expected " + exp + "got " + after; }
+    }
+    for (int i = 0; i < NT && verdict == "ok"; ++i)
+      if (g_tab[i] && !was_active[i] && !all_locks_free(i)) { verdict = "lock-held-after-exception"; detail = "T" + std::to_string(i); }
+  }
+  // follow-up workload, destruction, allocation / object balance
+  if (verdict == "ok") {
+    try {
+      for (int i = 0; i < NT; ++i) {
+        if (!g_tab[i] || IA::all_locks(*g_tab[i]).empty()) continue;
+        if (g_lt[i] && g_lt[i]->is_active()) g_lt[i]->unlock();
+        for (uint64_t kk = 1; kk < 48; ++kk) { Val v = mkval(0); g_tab[i]->find(mkkey(kk), v); }
+        g_tab[i]->maximum_hashpower(libcuckoo::NO_MAXIMUM_HASHPOWER);
+        g_tab[i]->minimum_load_factor(0.0);
+        if (!g_tab[i]->insert(mkkey(777777), mkval(7))) verdict = "follow-up-insert-failed";
+        if (!g_tab[i]->erase(mkkey(777777))) verdict = "follow-up-erase-failed";
+      }
+    } catch (...) { verdict = "follow-up-threw"; }
+  }
+  long live_blocks = -1, live_objs = -1;
+  if (verdict == "ok") {
+    for (int i = 0; i < NT; ++i) { g_lt[i].reset(); g_tab[i].reset(); }
+    live_blocks = g_alloc.live_blocks;
+#if H_KIND == 1
+    live_objs = (long)g_reg.st.size();
+#else
+    live_objs = 0;
+#endif
+    if (!g_errors.empty()) { verdict = "harness-error"; detail = g_errors[0]; }
+  }
+  char buf[200];
+  snprintf(buf, sizeof buf, "FAULT kind=%d k=%ld fired=%d blocks=%ld objs=%ld verdict=%s res=", kind, k, fired ? 1 : 0, live_blocks, live_objs, verdict.c_str());
+  std::string line = std::string(buf) + res.substr(0, 60) + (detail.empty() ? "" : " detail=" + detail.substr(0, 240)) + "\n";
+  if (write(wfd, line.data(), line.size()) < 0) {}
+  _exit(0);
+}
+
+static std::string run_child(int a, const std::vector<std::string> &tk, int kind, long k) {
+  int pfd[2];
+  if (pipe(pfd) != 0) return "";
+  fflush(stdout);
+  pid_t pid = fork();
+  if (pid == 0) { close(pfd[0]); fault_child(a, tk, kind, k, pfd[1]); }
+  close(pfd[1]);
+  std::string got; char buf[512]; ssize_t n;
+  while ((n = read(pfd[0], buf, sizeof buf)) > 0) got.append(buf, (size_t)n);
+  close(pfd[0]);
+  int st = 0; waitpid(pid, &st, 0);
+  if (got.empty()) {
+    char b2[160];
+    snprintf(b2, sizeof b2, "FAULT kind=%d k=%ld fired=1 blocks=-1 objs=-1 verdict=child-died-status-%d res=\n", kind, k, st);
+    got = b2;
+  }
+  return got;
+}
+
+static void enumerate_faults(int lineno, const std::string &ln, int a, const std::vector<std::string> &tk) {
+  std::string ctl = run_child(a, tk, 0, 0);
+  long cb = -2, co = -2;
+  { size_t p = ctl.find("blocks="); if (p != std::string::npos) cb = atol(ctl.c_str() + p + 7);
+    p = ctl.find("objs="); if (p != std::string::npos) co = atol(ctl.c_str() + p + 5); }
+  auto report = [&](std::string got) {
+    if (got.find("verdict=ok") != std::string::npos && got.find("fired=1") != std::string::npos) {
+      long b = -1, o = -1;
+      size_t p = got.find("blocks="); if (p != std::string::npos) b = atol(got.c_str() + p + 7);
+      p = got.find("objs="); if (p != std::string::npos) o = atol(got.c_str() + p + 5);
+      if (b != cb || o != co) {
+        size_t q = got.find("verdict=ok");
+        got.replace(q, 10, "verdict=leak:blocks" + std::to_string(b - cb) + ",objects" + std::to_string(o - co));
+      }
+    }
+    printf("#%d %s :: %s", lineno, ln.c_str(), got.c_str());
+  };
+  // kind 1: every allocation position the operation reaches
+  for (long k = 1; k < 300; ++k) {
+    std::string got = run_child(a, tk, 1, k);
+    report(got);
+    if (got.find("fired=0") != std::string::npos) break;
+  }
+  const std::string &o = tk[1];
+  bool has_key = tk.size() > 2 && (o == "find" || o == "findthrow" || o == "contains" || o == "findfn" || o == "update" || o == "updatefn" ||
+                                   o == "insert" || o == "ioa" || o == "upsert" || o == "uprase" || o == "erase" || o == "erasefn" ||
+                                   o == "l.insert" || o == "l.erase" || o == "l.find" || o == "l.at" || o == "l.count" || o == "l.idx");
+  if (has_key && U(tk[2]) == kPoison) {
+    report(run_child(a, tk, 2, 0));
+    report(run_child(a, tk, 3, 0));
+  }
+#if H_KIND == 1
+  if (o == "insert")
+    for (long k = 1; k < 8; ++k) {
+      std::string got = run_child(a, tk, 4, k);
+      report(got);
+      if (got.find("fired=0") != std::string::npos) break;
+    }
+#endif
+  if (o == "updatefn" || o == "upsert" || o == "uprase")
+    report(run_child(a, tk, 5, 0));
+}
+
 int main(int argc, char **argv) {
   if (argc > 1 && std::string(argv[1]) == "--leaf") return leaf_mode();
   if (argc > 1 && std::string(argv[1]) == "--config") {
@@ -678,6 +961,8 @@ int main(int argc, char **argv) {
            kDestructive ? 1 : 0);
     return 0;
   }
+  bool faults = false;
+  if (argc > 2 && std::string(argv[1]) == "--faults") { faults = true; argv[1] = argv[2]; }
   std::istream *in = &std::cin;
   std::ifstream f;
   if (argc > 1) {
@@ -704,7 +989,10 @@ int main(int argc, char **argv) {
       continue;
     }
     int a = atoi(tk[0].c_str());
+    if (faults) enumerate_faults(lineno, line, a, tk);
     std::string r = exec_op(a, tk);
+    // (instrumented build: lookups, updates and erasures go through HKey, a type that hashes and compares
+    //  like Key but is NOT convertible to it - constructing a key_type from it would not compile)
     out += "#" + std::to_string(lineno);
     for (auto &s : tk) out += " " + s;
     out += "\nR" + r + "\n";
@@ -712,9 +1000,10 @@ int main(int argc, char **argv) {
       if (g_tab[i]) dump_table(out, i);
     for (auto &e : g_errors) out += "HARNESS-ERROR " + e + "\n";
     g_errors.clear();
-    fwrite(out.data(), 1, out.size(), stdout);
+    if (!faults) fwrite(out.data(), 1, out.size(), stdout);
     out.clear();
   }
+  if (faults) { for (int i = 0; i < NT; ++i) { g_lt[i].reset(); g_tab[i].reset(); } return 0; }
   // teardown: everything destroyed, then leak accounting
   for (int i = 0; i < NT; ++i) {
     g_lt[i].reset();
